@@ -238,8 +238,12 @@ def handle (op : String) (j : Json) : Option Json :=
     let lines := getBs j "lines"
     let model := jUserList (userListLoop false t lines 1 pre [])
     let spec := jUserList (userListLoop true t lines 1 pre [])
+    -- the property asks for an error with file and line, not for a wording: the lines that
+    -- have errors are compared, the classes only between model and implementation
+    let errLines (o : Json) : List Json := (getArr o "errors").map fun e =>
+      match e with | .arr a => a.toList.headD Json.null | _ => Json.null
     let holds := implCls != "panic" && getBool impl "located" &&
-      getObj impl "names" == getObj spec "names" && getObj impl "errors" == getObj spec "errors"
+      getObj impl "names" == getObj spec "names" && errLines impl == errLines spec
     let esc := lines.any fun l => indexOf l [92, 42] != none
     some (obj ([("model", model), ("holds", Json.bool holds), ("expected", spec),
                ("tags", tagsJ (["userlist"] ++ (if esc then ["userlist:escaped-star"] else []) ++
